@@ -131,7 +131,7 @@ def run(chk):
                 X, Iv = mods[0][2], mods[0][3]
                 if sym.add(inner, mods[0]) != X:
                     problems.append("value is %s, expected X - X %% interval" % sym.show(inner))
-                if X_from is not None and X != X_from:
+                if X_from is not None and bits.normalize(X, env) != bits.normalize(X_from, env):
                     problems.append("rounded quantity %s differs from modSwitchFromTorus32's %s" % (sym.show(X), sym.show(X_from)))
                 intervals["approxPhase"] = Iv
         chk.require(not problems, "R2", key2, where=f2.where, ok="(X - X % I) >> 32 with the same X = p*2^32 + I/2 and the same I: "
@@ -157,8 +157,8 @@ def run(chk):
                     bad="; ".join(problems), variant=vn)
         # ---- R4 same interval, unsigned 64-bit arithmetic
         iv = {k: sym.subst(t, {M2: M, M3: M}) for k, t in intervals.items()}
-        same = len(set(iv.values())) == 1 and len(iv) == 3
-        chk.require(same, "R4", "the three functions use the same interval expression", where=f.where,
+        same = len({bits.normalize(t, env) for t in iv.values()}) == 1 and len(iv) == 3
+        chk.require(same, "R4", "the three functions use the same interval (compared on power-of-two normal forms)", where=f.where,
                     ok=sym.show(next(iter(iv.values()))) if iv else "", bad="; ".join("%s: %s" % (k, sym.show(t)) for k, t in iv.items()), variant=vn)
         for name in FNS:
             fn, _ = vals[name]
